@@ -15,6 +15,7 @@ of sub-requests answered in order (reply = list of sub-replies):
 * `["chk", unit, s, T, bound|null, path|null, cost|null]` → `[distCert, pathOK, pathCost, infeasOK]`:
   the verified checkers on an implementation answer, the potential being the reference distances;
   `infeasOK` = `unreachCert` (bound null) or `lowerCert … (bound+1)` (`max_cost = bound`).
+* tolerance helpers for inexact doubles: `["refd", s, delta]`, `["fwrefd", directed, delta]`, `["feas", directed, slack, dist]`.
 * mirrors: `["dijkstra", s, T, maxIter|null, maxCost|null]`, `["astar", s, T, h, wnum, wden, maxIter|null, maxCost|null]`
   → `[status, path, cost, rerelax, certOK|null, fuelOut]`; `["bfs"|"dfs", s, T|null, maxIter|null]` →
   `[status, path, cost, visited(sorted), certOK|null]`; `["bf", s, target|null]` → `[status, dist, path, cost]`;
@@ -110,7 +111,28 @@ def subQuery (n : Nat) (E : List (Edge Int)) (cmd : String) (args : List Val) : 
     let inf := okRef && (match bound with
       | none => unreachCert E' s T (finiteNodes pot)
       | some b => lowerCert E' s T pot (b + 1))
-    pure (Val.arr [Val.bool dc, Val.bool po, ofOInt pc, Val.bool inf])
+    let ends : Bool := match path with
+      | some p => p.head? == some s && (match p.getLast? with | some l => T.contains l | none => false)
+      | none => false
+    pure (Val.arr [Val.bool dc, Val.bool po, ofOInt pc, Val.bool inf, Val.bool ends])
+  | "refd", [s, delta] => do
+    -- the Bellman-Ford model on weights lowered by `delta`: UNBOUNDED iff a reachable cycle of `k` edges weighs < k*delta
+    let s ← s.toNat?
+    let delta ← delta.toInt?
+    pure (Val.str (bellmanFord n (E.map fun e => (e.1, e.2.1, e.2.2 - delta)) s none).status.name)
+  | "fwrefd", [d, delta] => do
+    let d ← d.toBool?
+    let delta ← delta.toInt?
+    let E' := (if d then E else symE E).map fun e => (e.1, e.2.1, e.2.2 - delta)
+    pure (Val.bool ((List.range n).any fun i => (bellmanFord n E' i none).status = .UNBOUNDED))
+  | "feas", [d, slack, dist] => do
+    -- verified checker `feasible` on weights raised by `slack` (potential condition within a tolerance)
+    let d ← d.toBool?
+    let slack ← slack.toInt?
+    let dist ← dist.toArr?
+    let dist ← dist.mapM (Val.toOpt? Val.toInt?)
+    let E' := (if d then E else symE E).map fun e => (e.1, e.2.1, e.2.2 + slack)
+    pure (Val.bool (feasible E' dist))
   | "dijkstra", [s, T, mi, mc] => do
     let s ← s.toNat?
     let T ← T.toNats?
